@@ -55,6 +55,21 @@ def roots(tier, seed):
                         c = alpha.base_case(n, pats, "in", "quad", "none", options={"nb_points": npt, "maxfev": cap})
                         c["dev"] = [["obj", k, alt]]
                         out.append(c)
+        # targets at or above the barrier value 2^100 that replaces NaN / infinite / huge objective values inside
+        # the solver: the replaced value must not count as "target reached"
+        for pats in [("free",) * n, ("wide",) * n]:
+            for target in [alpha.INF, 2.0 ** 100, 1e40]:
+                for cons in ["none", "ball_le"]:
+                    for alt in ["huge", "nan", "pinf"]:
+                        for k in (0, 1, 2 * n + 1, 2 * n + 2):
+                            c = alpha.base_case(n, pats, "in", "quad", cons, options={"target": target, "maxfev": 30})
+                            c["dev"] = [["obj", kk, alt] for kk in range(k + 1)]
+                            c["tag"]["special"] = "target-at-barrier"
+                            out.append(c)
+                    c = alpha.base_case(n, pats, "in", "quad", cons, nan="everywhere",
+                                        options={"target": target, "maxfev": 12})
+                    c["tag"]["special"] = "target-at-barrier"
+                    out.append(c)
         # main-loop endings
         for pats in [("free",) * n, ("wide",) * n, ("narrow",) + ("wide",) * (n - 1)]:
             for cons in ["none", "lin_le", "ball_le", "ball_eq"]:
